@@ -8,7 +8,10 @@ import concurrent.futures as cf, json, os, shutil, subprocess, sys, time
 
 VERIF = os.path.dirname(os.path.dirname(os.path.abspath(__file__)))
 REPO = os.environ.get("OLVERIF_REPO", "/repo")
-SCRATCH = "/var/tmp/olverif_reseed"
+SCRATCH = "/var/tmp/olverif_reseed_%d" % os.getpid()
+ROOT = os.path.join(VERIF, "seeded")
+CONFIRM = False
+PY = "/venv/bin/python"
 
 
 def sh(cmd, cwd=None, env=None, timeout=1800):
@@ -25,20 +28,30 @@ def worker(w, seeds):
     sh(f"rsync -a --exclude .git --exclude replays --exclude seeded {VERIF}/ {verif}/")
     out = {}
     for sid in seeds:
-        d = os.path.join(VERIF, "seeded", sid)
+        d = os.path.join(ROOT, sid)
         patch = os.path.join(d, "patch.diff")
         pid = sid.split("-")[0]
-        sh("git checkout -q -- . && git clean -fdq oneliner", cwd=repo)
+        sh("git reset -q --hard && git clean -fdq", cwd=repo)
         how = None
         for name, cmd in (("apply", f"git apply {patch}"), ("3way", f"git apply --3way {patch}"), ("fuzz", f"patch -p1 -F3 --no-backup-if-mismatch < {patch}")):
             rc, o = sh(cmd, cwd=repo)
             if rc == 0:
                 how = name
                 break
-            sh("git checkout -q -- . && git clean -fdq oneliner", cwd=repo)
+            sh("git reset -q --hard && git clean -fdq", cwd=repo)
         if how is None:
             out[sid] = {"applies": False}
             continue
+        conf = None
+        if CONFIRM:
+            # the change keeps the suite green, the demo fails with it and passes without it
+            penv = dict(os.environ, PYTHONPATH=repo)
+            rct, ot = sh([PY, "-m", "pytest", "-q", "-p", "no:cacheprovider", "-x", "-n", "4"], cwd=repo, env=penv)
+            rc1, _ = sh([PY, os.path.join(d, "demo.py")], cwd=repo, env=penv)
+            sh("git stash -q", cwd=repo)
+            rc0, _ = sh([PY, os.path.join(d, "demo.py")], cwd=repo, env=penv)
+            sh("git stash pop -q", cwd=repo)
+            conf = {"tests_pass_with_change": rct == 0, "tests_tail": ot.strip().split("\n")[-1][:80], "demo_fails_with_change": rc1 != 0, "demo_passes_without": rc0 == 0}
         t0 = time.time()
         env = dict(os.environ, OLVERIF_REPO=repo, VERIF_SEED=os.environ.get("VERIF_SEED", "1"))
         try:
@@ -48,6 +61,8 @@ def worker(w, seeds):
         viol = [l for l in o.split("\n") if l.startswith("VIOLATION")]
         out[sid] = {"applies": how, "exit": rc, "violation": bool(viol), "no_input": bool(viol) and all("no-failing-input-found" in v for v in viol),
                     "wall": round(time.time() - t0, 1), "tail": o.strip().split("\n")[-1][:160]}
+        if conf:
+            out[sid]["confirm"] = conf
         print(sid, out[sid], flush=True)
     shutil.rmtree(base, ignore_errors=True)
     return out
@@ -62,19 +77,36 @@ def main():
         i = args.index("--workers"); nw = int(args[i + 1]); del args[i:i + 2]
     if "--only" in args:
         i = args.index("--only"); only = args[i + 1]; del args[i:i + 2]
+    global ROOT, CONFIRM
+    if "--root" in args:
+        i = args.index("--root"); ROOT = os.path.abspath(args[i + 1]); del args[i:i + 2]
+    if "--confirm" in args:
+        args.remove("--confirm"); CONFIRM = True
     if "--out" in args:
         i = args.index("--out"); outp = args[i + 1]; del args[i:i + 2]
-    seeds = sorted(s for s in os.listdir(os.path.join(VERIF, "seeded")) if os.path.isfile(os.path.join(VERIF, "seeded", s, "patch.diff")))
+    seeds = sorted(s for s in os.listdir(ROOT) if os.path.isfile(os.path.join(ROOT, s, "patch.diff")))
     if only:
         seeds = [s for s in seeds if s.startswith(only)]
+    done = {}
+    if "--resume" in args:
+        # lines "<seed> {result}" of an earlier log: keep the seeds that were evaluated (a check ran to its summary line)
+        import ast
+        i = args.index("--resume")
+        for line in open(args[i + 1]):
+            sid, _, rest = line.partition(" ")
+            if rest.startswith("{"):
+                r = ast.literal_eval(rest.strip())
+                if r.get("tail", "").startswith("["):
+                    done[sid] = r
+        seeds = [s for s in seeds if s not in done]
     rc, head = sh(f"git -C {REPO} rev-parse --short HEAD")
     shares = [seeds[i::nw] for i in range(nw)]
-    res = {}
+    res = dict(done)
     with cf.ThreadPoolExecutor(nw) as ex:
         for r in ex.map(worker, range(nw), shares):
             res.update(r)
     shutil.rmtree(SCRATCH, ignore_errors=True)
-    summary = {"repo_head": head.strip(), "seeds": len(seeds),
+    summary = {"repo_head": head.strip(), "seeds": len(res),
                "applied": sum(1 for r in res.values() if r.get("applies")),
                "reported": sum(1 for r in res.values() if r.get("violation")),
                "reported_with_input": sum(1 for r in res.values() if r.get("violation") and not r.get("no_input")),
